@@ -250,6 +250,7 @@ class Builtins:
                     inline=lambda path: path.startswith(BIF + "::run"))
         outs = it.run(self.run, [Variant(BIF, names.index(variant), variant, []), Opaque("ctx")])
         self.evals += 1
+        calls_seen = set()
         req = {}        # arg index -> set of kinds on non-panicking paths
         rets = set()
         bridge = False
@@ -266,6 +267,8 @@ class Builtins:
             for e in o.events:
                 if e[0] == "argidx":
                     touched.add(e[1])
+                elif e[0] == "call":
+                    calls_seen.add(e[1])
             for a in o.assume:
                 tag, how = a[0], a[1]
                 if isinstance(tag, str) and tag.startswith("discr:arg") and how[0] == "variant":
@@ -296,9 +299,60 @@ class Builtins:
                     rets.add("?" + repr(tup)[:40])
         if it.exhausted:
             und.append("path bound")
-        r = {"req": req, "rets": rets, "bridge": bridge, "touched": touched, "paths": n_ok, "undecided": und}
+        r = {"req": req, "rets": rets, "bridge": bridge, "touched": touched, "paths": n_ok, "undecided": und, "calls": calls_seen}
         self._arms[ck] = r
         return r
+
+
+# calls that move an existing element to another index (shrinking from the end / growing at the end only causes
+# out-of-range failures, which the language defines)
+POSITION_CHANGING = ("::reverse", "::remove", "::insert", "::swap_remove", "::drain", "::retain", "::swap", "::sort", "::sort_by",
+                     "::sort_by_key", "::sort_unstable", "::rotate_left", "::rotate_right", "::fill", "::dedup")
+
+
+def fixed_list_rule(B, rep, rule):
+    """The static type of a fixed-shape list is positional ([int, str]): a built-in offered to a list that cannot be
+    coerced to an open list must not move, add or remove elements, or `l[0]` keeps its static type but not its value."""
+    F = B.F
+    tl = F.adt(TL)
+    tln = [v["name"] for v in tl["variants"]]
+    lt = None
+    for pth, a in F.crates["compiler"].adts.items():
+        if pth.endswith("::ListType"):
+            lt = (pth, a)
+    if lt is None:
+        raise AnchorMissing("ListType")
+    ltn = [v["name"] for v in lt[1]["variants"]]
+    if "Mixed" not in ltn:
+        raise AnchorMissing("ListType::Mixed")
+    recv = Variant(TL, tln.index("List"), "List", [Variant(lt[0], ltn.index("Mixed"), "Mixed", [Opaque("elements")])])
+    n = 0
+    for name in B.names():
+        it = Interp(F, models=tables.MODELS, max_depth=8, max_paths=256)
+        outs = it.run(B.gpt, [recv, Str(name)])
+        B.evals += 1
+        offered_unconditionally = False
+        for o in outs:
+            if o.kind == "return" and isinstance(o.value, Variant) and o.value.name == "Some":
+                # a path that assumed the elements are all of one type (try_coerce_to_open succeeded) is a homogeneous list
+                homog = any(isinstance(a[0], str) and "Iterator::all" in a[0] and a[1][0] == "otherwise" for a in o.assume)
+                if not homog:
+                    offered_unconditionally = True
+        if not offered_unconditionally:
+            continue
+        n += 1
+        rts = B.rt_lookup("Vector", name)
+        variants = {x[1] for x in rts if x[0] == "builtin"}
+        if len(variants) != 1 or None in variants:
+            continue
+        V = variants.pop()
+        arm = B.arm(V, "Vector")
+        moving = sorted(c for c in arm["calls"] if c.endswith(POSITION_CHANGING) and ("Vec" in c or "slice" in c or "[T]" in c))
+        rep.ob(rule, "list.%s is offered to fixed-shape (positional) lists and preserves element positions" % name,
+               "violated" if moving else "ok",
+               "BuiltInFunction::%s calls %s: after it, a constant index into a list typed [T0, T1, ..] reads a value of another position's type" % (
+                   V, [mir.short(m) for m in moving]) if moving else "", B.gpt.span, fn=B.gpt.path, key="%s|list.%s" % (rule, name))
+    rep.floor(rule + " methods offered to fixed-shape lists", n, 3)
 
 
 def ret_compatible(static_ret, rt_kinds):
@@ -397,6 +451,8 @@ def run(F, rep, rule, group):
                     problems.append("result: declared %s, the implementation returns %s" % (ret, sorted(map(str, arm["rets"]))))
                 rep.ob(rule, "%s(%s) -> %s agrees with BuiltInFunction::%s" % (inst, ", ".join(map(str, params)), ret, V),
                        "violated" if problems else "ok", "; ".join(problems), B.run.span, fn=B.run.path, key=key + "|sig")
+    if group in (None, "list+map"):
+        fixed_list_rule(B, rep, rule.split(".")[0] + ".fixed-list")
     rep.extra[rule + " declared (receiver, method) pairs"] = pairs
     rep.floor(rule + " declared pairs", pairs, 15 if group else 60)
     return B
